@@ -263,3 +263,46 @@ Proof.
   intros. rewrite paths_agree_l. unfold accepts.
   destruct (expected_via p b st desc f r); try apply outcome_eqb_refl; reflexivity.
 Qed.
+
+(* ------------------------------------------------------------------------ *)
+(* Status rows over ARBITRARY reply content (any document shape whatsoever,  *)
+(* not only the five body classes of the table)                              *)
+(* ------------------------------------------------------------------------ *)
+
+(* 202 / 204: the reply content is never looked at *)
+Lemma silent_any_content_l : forall (c : content) s d f r,
+  s = 202 \/ s = 204 -> process_reply c (Some s) d f r = Ret PNone.
+Proof.
+  intros c s d f r [-> | ->]; unfold process_reply, zin; unfold_tables; reflexivity.
+Qed.
+
+(* any status outside {200, 202, 204, 500}: the outcome is (status,
+   description) whatever the content is — malformed, a Fault, anything *)
+Lemma other_status_any_content_l : forall (c : content) s d f r,
+  s <> 200 -> s <> 202 -> s <> 204 -> s <> 500 ->
+  process_reply c (Some s) d f r = if f then RaiseStatus s d else RetPair s d.
+Proof.
+  intros c s d f r H200 H202 H204 H500.
+  apply Z.eqb_neq in H200, H202, H204, H500.
+  unfold process_reply, zin; unfold_tables. cbn [existsb].
+  rewrite H200, H202, H204, H500. cbn [orb negb]. reflexivity.
+Qed.
+
+(* a 500 reply never comes back as an ordinary value, whatever it holds *)
+Lemma status500_never_ordinary_l : forall (c : content) d f r,
+  ordinary (process_reply c (Some 500) d f r) = false.
+Proof.
+  intros c d f r. unfold process_reply, zin; unfold_tables.
+  cbn [existsb Z.eqb Pos.eqb orb negb].
+  destruct (parse c) as [|root]; [reflexivity|].
+  destruct (get_fault root) as [[fl doc]|]; destruct f; reflexivity.
+Qed.
+
+(* the outcome depends on the content of a 200 reply only through what the
+   parser, the fault lookup and the decoder report about it *)
+Lemma content_only_through_observations_l : forall (c1 c2 : content) st d f r,
+  parse c1 = parse c2 -> raw_of c1 = raw_of c2 ->
+  process_reply c1 st d f r = process_reply c2 st d f r.
+Proof.
+  intros c1 c2 st d f r Hp Hr. unfold process_reply. rewrite Hp, Hr. reflexivity.
+Qed.
